@@ -134,6 +134,7 @@ REQUIRED_IMPL_CLASSES = [
     "closest-exclude:stored-object-itself", "closest-exclude:fresh-object-with-that-id", "closest-k:default",
     "refresh-class:one", "refresh-class:few", "refresh-class:all", "refresh-class:none",
     "genid-pipeline-vs-cpython:overflow", "genid-pipeline-vs-cpython:in-range", "real-node-id:ipv4", "real-node-id:ipv6",
+    "community-answer:from-another-ip", "community-answer:from-the-asked-address", "two-threads:worker-waited-at-the-lock",
     "community-op:request", "community-op:discover", "community-op:churn", "community-op:move", "community-op:move-self",
     "rtt:zero", "rtt:sub-millisecond", "rtt:sub-second", "rtt:one-second-or-more", "profile:deep", "profile:clustered",
 ]
@@ -1691,7 +1692,7 @@ def run_community(rec: dict, counts=None):
     from ipv8.dht import routing
     from ipv8.dht.churn import PingChurn
     from ipv8.dht.community import DHTCommunity
-    from ipv8.dht.payload import PingRequestPayload
+    from ipv8.dht.payload import PingRequestPayload, PingResponsePayload
     from ipv8.keyvault.crypto import default_eccrypto
     from ipv8.messaging.interfaces.udp.endpoint import UDPv4Address
     from ipv8.peer import Peer
@@ -1725,6 +1726,27 @@ def run_community(rec: dict, counts=None):
                 elif kind == "discover":    # the peer is introduced to us (on_node_discovered -> ping -> ...) or asks directly
                     i = op[1]
                     overlay.get_requesting_node(Peer(others[i].my_peer.public_key, addr[i]))
+                elif kind == "answer":      # we ping the stored node of peer i; its signed response arrives from op[2] (or from where we asked)
+                    i = op[1]
+                    kb = others[i].my_peer.public_key.key_to_bin()
+                    stored = [n for rt in overlay.routing_tables.values() for b in rt.trie.values() for n in b.nodes.values()
+                              if n.public_key.key_to_bin() == kb]
+                    if stored:
+                        node = stored[0]
+                        sinks.append(MockEndpoint(node.address, node.address))
+                        sinks[-1].open()
+                        known = set(overlay.request_cache._identifiers)
+                        overlay.ping(node)
+                        new = [k for k in overlay.request_cache._identifiers if k not in known]
+                        if new:
+                            number = overlay.request_cache._identifiers[new[0]].number
+                            src = UDPv4Address(*op[2]) if op[2] else node.address
+                            if op[2]:
+                                addr[i] = src
+                            packet = others[i].overlay.ezr_pack(PingResponsePayload.msg_id, PingResponsePayload(number))
+                            overlay.on_packet((src, packet))
+                            if counts is not None:
+                                counts["community-answer:" + ("from-another-ip" if op[2] else "from-the-asked-address")] += 1
                 elif kind == "churn":
                     strategy.take_step()
                 elif kind == "move":        # peer i continues from another address
@@ -1787,8 +1809,10 @@ def community_histories(ctx: Ctx, n: int):
             x = rng.random()
             if x < 0.40:
                 ops.append(("request", rng.randrange(npeers)))
-            elif x < 0.55:
+            elif x < 0.50:
                 ops.append(("discover", rng.randrange(npeers)))
+            elif x < 0.60:
+                ops.append(("answer", rng.randrange(npeers), rand_addr() if rng.random() < 0.6 else None))
             elif x < 0.70:
                 ops.append(("churn",))
             elif x < 0.88:
@@ -1802,6 +1826,7 @@ def community_histories(ctx: Ctx, n: int):
         for i in range(npeers):
             ops += [("move", i, rand_addr()), ("request", i)]
         ops += [("move-self", rand_addr())] + [("request", i) for i in range(npeers)] + [("churn",)]
+        ops += [("answer", i, rand_addr() if i % 2 else None) for i in range(npeers)] + [("churn",)]
         rec = {"kind": "community", "key_seed": rng.getrandbits(24), "peers": npeers,
                "addresses": [rand_addr() for _ in range(npeers)], "ops": [list(o) for o in ops]}
         counts = collections.Counter()
@@ -1821,6 +1846,144 @@ def community_histories(ctx: Ctx, n: int):
             ctx.oracle_fail(verdict[0], verdict[1], rec)
 
 
+class ProbeLock:
+    """stands in for RoutingTable.lock: same mutual exclusion (it delegates to the real RLock), but tells the harness when
+    another thread starts waiting for it - so that a two-thread schedule is deterministic without any sleeping"""
+
+    def __init__(self, real):
+        import threading
+        self.real = real
+        self.main = threading.get_ident()
+        self.attempt = threading.Event()
+
+    def acquire(self, *a, **k):
+        import threading
+        if threading.get_ident() != self.main:
+            self.attempt.set()
+        return self.real.acquire(*a, **k)
+
+    def release(self):
+        return self.real.release()
+
+    def __enter__(self):
+        self.acquire()
+        return self
+
+    def __exit__(self, *a):
+        self.release()
+        return False
+
+
+def two_thread_schedules(ctx: Ctx, n: int, use_model=True):
+    """The table carries a lock, so "any sequence of add / remove_bad_nodes" includes calls from two threads.  Deterministic
+    schedule around that lock: the main thread holds it, a worker thread calls add / remove_bad_nodes / closest_nodes and is
+    observed to wait for the lock, the main thread meanwhile adds nodes that split the very bucket the worker's call concerns,
+    then lets go.  Whatever the worker did must be explainable as having happened AFTER the main thread's adds (that is the
+    order the lock imposes): the model runs that sequential history and must agree, and the tree oracle must hold."""
+    import threading
+    rng = ctx.rng
+    for s in range(n):
+        if len(ctx.failures) >= (1 if ctx.searching else 12):
+            break
+        me = rng.getrandbits(W)
+        m = rng.choice([None, None, 2, 3])
+        im = Impl(me, m)
+        if im.rt is None or getattr(im.rt, "lock", None) is None:
+            ctx.count("two-threads:table-has-no-lock")
+            continue
+        ops = []
+        lines, replies = [f"rt.new {bits(me)} {im.m}"], ["ok"]
+
+        def do(op):
+            ln, rep = im.apply(op, len(ops))
+            ops.append(op)
+            lines.append(ln)
+            replies.append(rep)
+        depth = rng.choice([0, 0, 1, 3, 10])
+        own = lambda extra_bits: ((me >> (W - depth)) << (W - depth) if depth else 0) | rng.getrandbits(W - depth) if extra_bits else 0  # noqa: E731
+        # fill the bucket on the own path (depth `depth`) up to its capacity
+        for _ in range(im.m * (depth + 1) + im.m):
+            do(("add", own(True), 0, 1000, rng.randrange(1, 60000), 1))
+        worker_kind = rng.choice(["add", "add", "add", "rmbad", "closest"])
+        wid = own(True)
+        wtag = im.ntag
+        if worker_kind == "add":
+            wnode = node_cls()(wtag, wid, 777)
+            im.objs[wtag] = wnode
+            im.ntag += 1
+            wnode.failed, wnode.rtt = 0, 1000 / float(UNIT)
+            script_contact(im.routing, wnode, 1)
+        main_ops = [("add", own(True), 0, 1000, rng.randrange(1, 60000), 1) for _ in range(rng.randrange(im.m + 1, 3 * im.m + 2))]
+        result = {}
+
+        def worker():
+            try:
+                if worker_kind == "add":
+                    result["value"] = im.rt.add(wnode)
+                elif worker_kind == "rmbad":
+                    result["value"] = im.rt.remove_bad_nodes()
+                else:
+                    result["value"] = im.rt.closest_nodes(wid.to_bytes(W // 8, "big"), max_nodes=8)
+            except Exception as e:
+                result["error"] = e
+        probe = ProbeLock(im.rt.lock)
+        im.rt.lock = probe
+        probe.real.acquire()
+        th = threading.Thread(target=worker, daemon=True)
+        th.start()
+        waited = probe.attempt.wait(10)
+        try:
+            if waited:
+                for op in main_ops:
+                    do(op)
+        finally:
+            probe.real.release()
+        th.join(20)
+        im.rt.lock = probe.real
+        ctx.count("two-threads:" + ("worker-waited-at-the-lock" if waited else "worker-never-touched-the-lock"))
+        ctx.count("two-threads-worker:" + worker_kind)
+        rec = {"kind": "two-threads", "note": "re-run with this VERIF_SEED; schedule index %d" % s, "seed": ctx.seed}
+        if th.is_alive():
+            ctx.oracle_fail("RoutingTable.lock:deadlock", f"two threads: the worker's {worker_kind} did not finish after the lock was released", rec)
+            continue
+        if not waited:
+            for op in main_ops:     # no mutual exclusion was requested by the call: it simply ran first
+                do(op)
+        if "error" in result:
+            e = result["error"]
+            if raised_by_harness(e):
+                raise InfraError(f"harness error in the worker thread: {type(e).__name__}: {e}")
+            ctx.oracle_fail(f"RoutingTable.{'add' if worker_kind == 'add' else 'remove_bad_nodes' if worker_kind == 'rmbad' else 'closest_nodes'}:raises-with-two-threads",
+                            f"two threads (worker {worker_kind} waits at the lock while the main thread adds {len(main_ops)} nodes that split the bucket): "
+                            f"{type(e).__name__}: {e}", rec)
+            continue
+        # the worker's call, placed after the main thread's adds (when it waited) - the order the lock imposes
+        if worker_kind == "add":
+            res = result["value"]
+            wline = f"rt.add {bits(wid)} 0 1 1000 777 {wtag}"
+            wrep = "none" if res is None else f"stored {res.tag} {res.address[1]}"
+            if res is not None and im.rt.get(res.id) is not res:
+                ctx.oracle_fail("RoutingTable.add:returned-node-not-stored", "two threads: add returned a node that the table does not hold", rec)
+        elif worker_kind == "rmbad":
+            wline, wrep = "rt.rmbad", "[" + ",".join(map(str, sorted(x.tag for x in result["value"]))) + "]"
+        else:
+            wline, wrep = f"rt.closest {bits(wid)} 8 none", "[" + ",".join(str(x.tag) for x in result["value"]) + "]"
+        if waited:
+            lines.append(wline)
+            replies.append(wrep)
+        else:
+            k0 = len(lines) - len(main_ops)
+            lines.insert(k0, wline)
+            replies.insert(k0, wrep)
+        for op in (("dump",), ("closest", wid, 8, None), ("closest", me, 20, None)):
+            do(op)
+        case(ctx, ("two-threads", me, worker_kind, len(main_ops)), nontrivial=waited and im.splits > 0, n=len(lines))
+        if im.fail is not None:
+            ctx.oracle_fail(im.fail[0], im.fail[1] + f" [after a two-thread schedule: worker {worker_kind} waited at the lock while the main thread split its bucket]", rec)
+        if use_model and im.fail is None:
+            compare(ctx, lines, replies, dict(rec))
+
+
 def run(ctx: Ctx):
     if ctx.replay_input is not None:
         return replay(ctx, ctx.replay_input)
@@ -1828,18 +1991,19 @@ def run(ctx: Ctx):
     status_grid(ctx)
     genid_sweep(ctx, factor=ctx.scale(4, 64))
     trie_exhaustive(ctx, ctx.scale(2, 3))
-    trie_random(ctx, ctx.scale(300, 6000))
+    trie_random(ctx, ctx.scale(300, 4000))
     small_scope(ctx, 3, ctx.scale(3, 4), 2, [0, 5 << (W - 3)] if not ctx.thorough() else [i << (W - 3) for i in range(8)])
     if ctx.thorough():
         small_scope(ctx, 2, 5, 1, [0, 3 << (W - 2), (1 << W) - 1])
         small_scope(ctx, 4, 3, 3, [0, 9 << (W - 4)])
-    community_histories(ctx, ctx.scale(4, 40))
+    community_histories(ctx, ctx.scale(4, 30))
+    two_thread_schedules(ctx, ctx.scale(12, 120))
     bucket_direct(ctx, ctx.scale(60, 600))
     real_node_ids(ctx)
     refresh_two_tables(ctx, ctx.scale(6, 60))
-    deep_walk_scenarios(ctx, ctx.scale(2, 30))
-    routing_scenarios(ctx, ctx.scale(24, 260), [60, 150, 150, 300, 400, 700])
-    routing_scenarios(ctx, ctx.scale(1, 10), [2000, 2600])
+    deep_walk_scenarios(ctx, ctx.scale(2, 20))
+    routing_scenarios(ctx, ctx.scale(24, 170), [60, 150, 150, 300, 400, 700])
+    routing_scenarios(ctx, ctx.scale(1, 6), [2000, 2600])
     if ctx.model_ok and not ctx.failures and not ctx.disagreements:
         require_coverage(ctx)
 
@@ -1860,6 +2024,7 @@ def search(ctx: Ctx, reason: str):
         return
     real_node_ids(ctx)
     community_histories(ctx, 6)
+    two_thread_schedules(ctx, 20, use_model=False)
     if ctx.failures:
         return
     refresh_two_tables(ctx, 10)
